@@ -216,18 +216,22 @@ func (a *application) terminate(pid gen.PID, reason error) {
 		a.reason = gen.TerminateReasonNormal
 	}
 
+	// once the state is 'loaded' the application can be started again, which resets
+	// these fields: take the values of the run that ends here first
+	reason = a.reason
+	stopped := a.stopped
+	a.started = 0
+	a.parent = ""
+
 	old := atomic.SwapInt32(&a.state, int32(gen.ApplicationStateLoaded))
 	if old == int32(gen.ApplicationStateLoaded) {
 		return
 	}
-	if a.stopped != nil {
-		close(a.stopped)
+	if stopped != nil {
+		close(stopped)
 	}
 
-	a.started = 0
-	a.parent = ""
-
-	a.node.log.Info("application %s (%s) stopped with reason %s", a.spec.Name, a.mode, a.reason)
+	a.node.log.Info("application %s (%s) stopped with reason %s", a.spec.Name, a.mode, reason)
 
 	if lib.Recover() {
 		defer func() {
@@ -239,7 +243,7 @@ func (a *application) terminate(pid gen.PID, reason error) {
 		}()
 	}
 
-	a.behavior.Terminate(a.reason)
+	a.behavior.Terminate(reason)
 
 	network := a.node.Network()
 	if network.Mode() != gen.NetworkModeEnabled {
